@@ -22,14 +22,19 @@ VERIF = Path(__file__).resolve().parent.parent
 M = []
 
 
-def m(id, file, old, new, props, note=""):
-    M.append(dict(id=id, file=file, old=old, new=new, props=props, note=note))
+def m(id, file, old, new, props, note="", more=()):
+    """more: further (file, old, new) edits for multi-site mutants"""
+    M.append(dict(id=id, file=file, old=old, new=new, props=props, note=note, edits=[(file, old, new), *more]))
 
 
 # ---- C01
 m("tuple1-repr", "_adapter/sequence_adapter.py", "if len(value) == 1 and cls.trailing_comma:", "if False:", ["C01"], "1-tuple rendered as (x)")
 m("hasrepr-off", "_code_repr.py", "        return real_repr(HasRepr(type(obj), result))", "        return result", ["C01"], "unparsable repr written verbatim")
-m("triple-quote-tail", "_utils.py", '    if not string.endswith("\\n"):\n        string = string + "\\\\\\n"', "    pass", ["C01", "C12"], "final line continuation dropped")
+# ---- C12
+m("tq-backslash", "_utils.py", 'if c == "\\\\" or not c.isprintable():', "if not c.isprintable():", ["C12"], "backslash not escaped in triple-quoted strings (self-check assert fires -> crash)")
+m("tq-backslash-noassert", "_utils.py", 'if c == "\\\\" or not c.isprintable():', "if not c.isprintable():", ["C12"], "same, with the self-check removed (two cooperating sites)", more=[("_utils.py", "                assert ast.literal_eval(triple_quoted_string) == s\n", "")])
+m("str-prefix-strip", "_source_file.py", "                return code[len(prefix) :]", r"                return code[len(prefix) :].replace('\\x00', '')", ["C12"], "NUL escapes dropped from lone literals")
+m("bytes-as-str", "_utils.py", "            if isinstance(s, str) and (", "            if isinstance(s, (str, bytes)) and len(s) > 3 and (", ["C12"], "long multi-line bytes go through triple_quote")
 m("set-sort-dedupe", "_code_repr.py", "    set_values = list(map(repr, set_values))", "    set_values = list(dict.fromkeys(r[:3] for r in map(repr, set_values)))", ["C01", "C16"], "set members truncated")
 m("dict-create-key", "_snapshot/dict_value.py", 'f"{self._file._value_to_code(k)}: {v._new_code()}"', 'f"{self._file._value_to_code(str(k) if isinstance(k, int) else k)}: {v._new_code()}"', ["C01"], "int keys of created sub-snapshots become str")
 m("min-create-first", "_snapshot/min_max_value.py", "            if not self.cmp(self._new_value, other):\n                self._new_value = clone(other)", "            pass", ["C01", "C05"], "bound keeps the first value instead of the extreme")
@@ -40,12 +45,13 @@ def make_copy(mut):
     base = os.environ.get("VERIF_TMP") or ("/dev/shm" if os.path.isdir("/dev/shm") else tempfile.gettempdir())
     d = Path(tempfile.mkdtemp(prefix="mutant-", dir=base))
     shutil.copytree("/repo/src", d / "src", ignore=shutil.ignore_patterns("__pycache__"))
-    p = d / "src" / "inline_snapshot" / mut["file"]
-    s = p.read_text()
-    if mut["old"] not in s:
-        shutil.rmtree(d)
-        raise SystemExit(f"mutant {mut['id']}: old text not found in {mut['file']}")
-    p.write_text(s.replace(mut["old"], mut["new"], 1))
+    for file, old, new in mut["edits"]:
+        p = d / "src" / "inline_snapshot" / file
+        s = p.read_text()
+        if old not in s:
+            shutil.rmtree(d)
+            raise SystemExit(f"mutant {mut['id']}: old text not found in {file}")
+        p.write_text(s.replace(old, new, 1))
     return d
 
 
